@@ -129,10 +129,12 @@ def gen_case(rng: random.Random, tier: str, *, fault_free_p=0.1, s2_bias=0.5, en
                          ["u16", rng.randrange(1 << 30), rng.choice(blockdev.BIG)], ["u32", rng.randrange(1 << 30), rng.choice(blockdev.BIG)], ["empty"],
                          ["zerotail", rng.randrange(1 << 30), rng.choice([-1, 2, 4, 6, 20, 100, 600])]])
         ole = [rng.randrange(1, 7), ed]
-        if _ole_obj_streams.get(name) and rng.random() < 0.5:
+        if _ole_obj_streams.get(name) and rng.random() < 0.6:
             # aim at a stream that carries embedded objects (pictures), with the fault that leaves an object half there
             ole = [rng.choice(_ole_obj_streams[name]), rng.choice([ed, ["zerotail", rng.randrange(1 << 30), rng.choice([2, 4, 6, 20, 100, 600])],
-                                                                    ["trunc", rng.randrange(1 << 30)]])]
+                                                                    ["trunc", rng.randrange(1 << 30)],
+                                                                    ["dupobj", rng.randrange(1 << 20), rng.choice([25, 25, 41, 8])],
+                                                                    ["dupobj", rng.randrange(1 << 20), rng.choice([25, 41])]])]
         ops = []  # the container shell stays valid: only the stream read is faulted
     case_style = rng.choice(["lower", "lower", "upper", "mixed"])
     route_cs = {"lower": route, "upper": route.upper(), "mixed": "".join(c.upper() if i % 2 else c for i, c in enumerate(route))}[case_style]
